@@ -45,7 +45,14 @@ func genIntrospection(t *rapid.T, s *hx.Schema, label string) string {
 		"name possibleTypes{name} interfaces{name}",
 		"name kind inputFields{name} enumValues" + inc + "{name isDeprecated deprecationReason}",
 	}).Draw(t, label+"body")
-	switch rapid.IntRange(0, 3).Draw(t, label+"shape") {
+	switch rapid.IntRange(0, 5).Draw(t, label+"shape") {
+	case 4:
+		// requests whose __schema selection reads the same and means something else: the fragment
+		// of that name has another body
+		return "{__schema{...S}} fragment S on __Schema {" + rapid.SampledFrom([]string{"queryType{name}", "types{name}", "directives{name}", "types{kind} queryType{kind}"}).Draw(t, label+"fragBody") + "}"
+	case 5:
+		// ... the variable deciding a condition beneath it has another value
+		return "query I($v: Boolean = " + rapid.SampledFrom([]string{"true", "false"}).Draw(t, label+"cond") + "){__schema{queryType{name} types{name @include(if: $v) kind}}}"
 	case 0:
 		return c12Introspection
 	case 1:
